@@ -53,7 +53,7 @@ func (w *world) canon(cnt simCounters) string {
 		fmt.Fprintf(&sb, "fsm%d/%d q%d ", r.fsm.index, r.fsm.term, len(r.fsm.ch))
 		fmt.Fprintf(&sb, "tm%v ", r.timer.active)
 		if r.snapTakenCh != nil {
-			fmt.Fprintf(&sb, "snapping(%s) ", n.snapAt)
+			fmt.Fprintf(&sb, "snapping(%s %s) ", n.snapAt, n.snapArgs)
 		}
 		switch r.state {
 		case Candidate:
